@@ -9,10 +9,11 @@
 
    Conventions: bigint VALUES are Z (any sign); usize quantities (positions, sizes, widths) are N;
    `mb` is BIGINT_MAX_BITS, `plimit`/`elimit` the two recursion limits (instantiated from Gen/Generated.v in Props/C19.v).
-   checked_* calls of the Rust code give Err, plain `+ - *` on usize give Panic (uadd/usub). *)
+   checked_* calls of the Rust code give Err, plain `+ - *` on usize give Panic (uadd/usub).
+   Tree: /repo 76fc576 (every position sum of the resolver and of the output builder is a checked operation). *)
 From Coq Require Import ZArith NArith List Bool.
 From CA Require Import Model.Overlap Model.Cursor.
-From CA Require Model.BigIntOps Model.IncFns Model.Paths Model.Output.
+From CA Require Model.BigIntOps Model.IncFns Model.Paths.
 Import ListNotations.
 Open Scope N_scope.
 
@@ -130,11 +131,12 @@ Definition guard_align_position (mb : Z) (b : bank) (pos : N) (v : Z) : res N :=
 Definition guard_addr_position (mb : Z) (b : bank) (a : Z) : res N :=
   let* _d := guard_addr_value mb b a in addr_position mb b a.
 
-(* eval_asm.rs resolve_once: `cur_position += size` for every instruction of the block -- plain `+` *)
+(* eval_asm.rs resolve_once: `cur_position = cur_position.checked_add(size)` or the error
+   "value is out of supported range", for every instruction of the block (fix 76fc576) *)
 Fixpoint asm_block_positions (pos : N) (sizes : list N) : res N :=
   match sizes with
   | [] => Ok pos
-  | s :: r => let* p := uadd pos s in asm_block_positions p r
+  | s :: r => let* p := advance_by pos s in asm_block_positions p r
   end.
 
 (* ------------------------------------------------------------------ #bankdef fields (defs/bankdef.rs define) *)
@@ -189,8 +191,10 @@ Definition guard_fill (mb : Z) (b : bank) : res N :=
 (* check_bank_output(size, write) at position pos of bank b; work = end of the written range (0 when nothing is written) *)
 Definition guard_bank_output (mb : Z) (b : bank) (pos size : N) (write : bool) : res N :=
   let* _u := match bk_size b with
-             | Some bsz => let* e := uadd pos size in   (* "FIXME: Addition can overflow" *)
-                           if bsz <? e then Err else Ok 0
+             | Some bsz => match checked_add pos size with        (* checked_add(size).map_or(true, |end| end > bank_size) *)
+                           | None => Err
+                           | Some e => if bsz <? e then Err else Ok 0
+                           end
              | None => Ok 0
              end in
   match write, bk_outp b with
@@ -206,15 +210,33 @@ Definition guard_bank_output (mb : Z) (b : bank) (pos size : N) (write : bool) :
   | false, _ => Ok 0
   end.
 
-(* what build_output does with one item: check_bank_output, then get_output_position (plain `outp + pos`),
-   then write `size` bits there (write = true) or only record the position (labels, #res: write = false) *)
+(* ResolverContext::get_output_position (fix 6fb2301): `bank.output_offset?.checked_add(cur_position)`:
+   None when the bank has no outp or when the sum is not representable *)
+Definition output_position (b : bank) (pos : N) : option N :=
+  match bk_outp b with Some off => checked_add off pos | None => None end.
+
+(* what build_output does with one item: check_bank_output, then get_output_position; a written item (instruction,
+   data) `.unwrap()`s it and writes `size` bits there; labels and #res only use it when it is Some *)
 Definition place_item (mb : Z) (b : bank) (pos size : N) (write : bool) : res N :=
   let* w := guard_bank_output mb b pos size write in
-  let* _p := get_output_position b pos in
-  Ok w.
+  if write then match output_position b pos with Some _ => Ok w | None => Panic end   (* Option::unwrap *)
+  else Ok w.
 
-(* check_bank_overlap of two banks: `outp + size` plain (Model/Output.windows_overlap) *)
-Definition guard_bank_overlap (b1 b2 : bank) : res bool := Output.windows_overlap b1 b2.
+(* check_bank_overlap of two banks (fix abbd199): ends_after(outp, size, other) =
+   outp.checked_add(size).map_or(true, |end| end > other) -- an unrepresentable end lies after everything *)
+Definition ends_after (outp size other : N) : bool :=
+  match checked_add outp size with None => true | Some e => other <? e end.
+Definition guard_bank_overlap (b1 b2 : bank) : res bool :=
+  match bk_outp b1, bk_outp b2 with
+  | Some o1, Some o2 =>
+      Ok (match bk_size b1, bk_size b2 with
+          | None, None => true
+          | Some s1, None => ends_after o1 s1 o2
+          | None, Some s2 => ends_after o2 s2 o1
+          | Some s1, Some s2 => ends_after o1 s1 o2 && ends_after o2 s2 o1
+          end)
+  | _, _ => Ok false                                       (* a bank without outp is skipped *)
+  end.
 
 (* ------------------------------------------------------------------ incbin / incbinstr / inchexstr ranges *)
 Definition of_rres {A} (r : Paths.res A) (len : A -> N) : res N :=
